@@ -882,7 +882,9 @@ class History:
         if outside is not None:
             # K1 patterns: the specification only demands consistency
             cons = consistent(im)
-            if cons is not None or exc is not None:
+            # forest / UUID-table damage is C03, C04 and C16's business
+            if (cons is not None or exc is not None) and \
+                    ctx.prop in ("C03", "C04", "C16"):
                 ctx.report({"op": "modules." + op[0], "feature": outside},
                            dict(replay, inconsistency=cons, exception=exc),
                            "module list %s with a value already elsewhere in "
